@@ -76,6 +76,7 @@ type c12call struct {
 	rel         capnp.ReleaseFunc
 	rt          *iret
 	sendPanic   bool
+	relArgs     func() // selfarg mode: what ReleaseArgs of a Recv-style call does
 
 	// outcome
 	resOK    bool
@@ -396,6 +397,9 @@ func (c *c12) issueDirect(cl *c12call) {
 	var rv capnp.Recv
 	if cl.Kind == "recv" {
 		rv, cl.rt = cc.recvFor(cl.UID, 0)
+		if cl.relArgs != nil {
+			rv.ReleaseArgs = cl.relArgs
+		}
 	}
 	cl.tCall = cc.log.tick()
 	cl.op = cc.goOp(fmt.Sprintf("%s uid=%d", cl.Kind, cl.UID), func() {
@@ -486,6 +490,10 @@ func (c *c12) hasAnswer(cl *c12call) bool {
 // ---- the case ---------------------------------------------------------------------
 
 func runC12(rec *common.Recorder, idx uint64, seed uint64, selfpipe bool) bool {
+	return runC12Mode(rec, idx, seed, selfpipe, false)
+}
+
+func runC12Mode(rec *common.Recorder, idx uint64, seed uint64, selfpipe, selfarg bool) bool {
 	rng := common.NewRNG(seed)
 	cc := newCase(rec, idx)
 	c := &c12{cc: cc, rng: rng, behs: map[uint64]*c12call{}, counts: map[string]int64{}, callerOf: map[int]*c12call{}, selfpipe: selfpipe}
@@ -509,7 +517,9 @@ func runC12(rec *common.Recorder, idx uint64, seed uint64, selfpipe bool) bool {
 	}
 	setPolicy(rng.Uint64()|1, srvSites)
 	ok := true
-	if selfpipe {
+	if selfarg {
+		ok = c.runSelfArg(rec, idx)
+	} else if selfpipe {
 		ok = c.runSelfPipe(rec, idx)
 	} else {
 		ok = c.runScript(rec, idx)
@@ -519,6 +529,9 @@ func runC12(rec *common.Recorder, idx uint64, seed uint64, selfpipe bool) bool {
 	pre := "c12_"
 	if selfpipe {
 		pre = "c12self_"
+	}
+	if selfarg {
+		pre = "c12arg_"
 	}
 	for k, v := range c.counts {
 		rec.Count(pre+k, v)
@@ -1125,4 +1138,131 @@ func (c *c12) runSelfPipe(rec *common.Recorder, idx uint64) bool {
 	}
 	c.counts["selfpipe_scenarios"]++
 	return c.finishCase(c.rng)
+}
+
+// ---- selfarg mode --------------------------------------------------------------------
+
+// runSelfArg: deterministic scenarios in which the *arguments* of a call on
+// S hold the last reference to S: the caller makes the call through client
+// c1, the call's ReleaseArgs releases c2 (as the RPC layer does when the
+// parameters' capability table is cleared), and c1 is released as soon as
+// the call has been acknowledged.  When the body returns, ReleaseArgs drops
+// the last reference from the call's own goroutine, i.e. Server.Shutdown
+// runs there.  Expected: the call completes with its result, the user's
+// Shutdown runs exactly once with no body running, other running calls are
+// cancelled and complete.
+func (c *c12) runSelfArg(rec *common.Recorder, idx uint64) bool {
+	cc := c.cc
+	variant := int(idx % 4)
+	c.S.max = 2
+	c.S.srv = server.New([]server.Method{{Method: c12Method, Impl: c.body(c.S)}}, 0, userShutdown{c, c.S},
+		&server.Policy{MaxConcurrentCalls: 2, AnswerQueueSize: 4})
+	c1 := capnp.NewClient(c.S.srv)
+	c2 := c1.AddRef()
+	c.sClient = c1
+	rec.Case(idx, fmt.Sprintf("c12 selfarg variant=%d", variant))
+	var other *c12call
+	if variant == 1 { // a second call is running when the last reference goes away
+		b := c.newBeh(c.rng, false)
+		b.Ack, b.Ret, b.CapsS = ackNow, retGateOrCtx, [2]int{-1, -1}
+		other = &c12call{Kind: "send", Srv: objS, Caller: 1, B: b}
+		c.issueDirect(other)
+		if !cc.await(other.op.name, other.op.isDone) {
+			return false
+		}
+		other.waited = true
+	}
+	b := c.newBeh(c.rng, false)
+	b.Ack, b.Ret, b.CapsS = ackNow, retGate, [2]int{objH, -1}
+	if variant == 2 { // no Ack: the caller's reference outlives the arguments
+		b.Ack, b.Ret = ackNever, retEarly
+	}
+	if variant == 3 { // no Ack, and the caller's reference is released while its call is still in flight
+		b.Ack, b.Ret = ackNever, retGate
+	}
+	cl := &c12call{Kind: "recv", Srv: objS, Caller: 0, B: b}
+	cl.relArgs = func() {
+		cc.log.add("release-args", objS, cl.UID, "", nil)
+		c2.Release()
+	}
+	c.issueDirect(cl)
+	if variant == 3 {
+		started := func() bool { return len(deliveriesOf(cc.log.snapshot(), cl.UID)) > 0 || cl.op.isDone() }
+		if !cc.await("start of the call", started) {
+			return false
+		}
+		c.logOp("release caller's reference (call in flight)")
+		if !cc.run("release caller's reference", func() { c1.Release() }) { // not the last one: returns at once
+			return false
+		}
+		c.logOp("openR %d", cl.UID)
+		b.gateR.open()
+		if !cc.await(cl.op.name, cl.op.isDone) {
+			return false
+		}
+		cl.waited = true
+	} else {
+		if !cc.await(cl.op.name, cl.op.isDone) { // RecvCall returns once the body has acknowledged (or returned)
+			return false
+		}
+		cl.waited = true
+		c.logOp("release caller's reference")
+		if !cc.run("release caller's reference", func() { c1.Release() }) {
+			return false
+		}
+		c.logOp("openR %d", cl.UID)
+		b.gateR.open()
+	}
+	if !cc.await(fmt.Sprintf("Returner of uid=%d", cl.UID), cl.rt.returned) {
+		return false
+	}
+	userShut := func() bool {
+		cc.log.mu.Lock()
+		defer cc.log.mu.Unlock()
+		return c.S.userShut >= 1
+	}
+	if !cc.await("Server.Shutdown after the last reference (held by the call's arguments) was released", userShut) {
+		return false
+	}
+	st, err := cl.rt.result()
+	c.outcome(cl, st, err)
+	if !cl.resOK || cl.resUID != cl.UID {
+		cc.violate("C12/wrong-result", "the caller's answer is not the result the implementation returned", fmt.Sprintf("uid=%d ok=%v err=%q", cl.UID, cl.resOK, cl.resErr))
+	}
+	if other != nil {
+		var ost capnp.Struct
+		var oerr error
+		if !cc.run("Answer.Struct of the concurrent call", func() { ost, oerr = other.ans.Struct() }) {
+			return false
+		}
+		c.outcome(other, ost, oerr)
+		if other.resOK {
+			cc.violate("C12/shutdown-did-not-cancel", "a running call was not cancelled by the Shutdown triggered from another call's ReleaseArgs", "")
+		}
+		if other.rel != nil {
+			if !cc.run("ReleaseFunc", other.rel) {
+				return false
+			}
+		}
+	}
+	if !cc.run("release Recv results", func() { cl.rt.release() }) {
+		return false
+	}
+	if !cc.run("release T client", func() { c.tClient.Release() }) {
+		return false
+	}
+	if !cc.run("release H client", func() { c.hClient.Release() }) {
+		return false
+	}
+	cc.log.mu.Lock()
+	su := c.S.userShut
+	cc.log.mu.Unlock()
+	if su != 1 {
+		cc.violate("C12/user-shutdown-count", "the user's Shutdown of the main server did not run exactly once", fmt.Sprintf("count=%d", su))
+	}
+	if n := c.H.shutdowns(); n != 1 {
+		cc.violate("C12/result-cap-refcount", "the plain target hook was not shut down exactly once after all results were released", fmt.Sprintf("count=%d", n))
+	}
+	c.counts["selfarg_scenarios"]++
+	return true
 }
